@@ -18,6 +18,7 @@ CLAIMED = {
  "C14": ("TLC: MC_Tracker invariants LatestWins/DistIffPos/TrackIsSuperseded + trace validation of attributes and derived views (details, all_position, Display) after every step", "7/C14"),
  "C15": ("TLC: MC_Tracker PruneRemovesExactly/ReaddedIsFresh + trace validation of tick/prune histories driven through the guarded verif_backdate hook", "7/C15"),
  "C19": ("TLC model checking of MC_Reader (inner reader with short reads / Interrupted, retry loops, caching wrapper; invariants WindowCorrect, NoOverread) over read/seek programs observed from the real decoder; every model schedule replayed through a scripted reader + random schedules, judged by Trace_Reader", "7/C19"),
+ "C20": ("trace validation of paired recordings from two separate builds (std+serde, alloc-only) against Trace_Config (projections must agree with each other and with the contract) and of serde round-trip steps against Trace_Tracker/Trace_Config (TLC)", "7/C20"),
 }
 NOT_YET = {}
 import subprocess
